@@ -173,21 +173,18 @@ Fixpoint omap {A B} (f : A -> outcome B) (l : list A) : outcome (list B) :=
   | x :: t => do y <- f x; do r <- omap f t; Ok (y :: r)
   end.
 
-(* split into chunks of [n] elements; [fuel] bounds the number of chunks *)
-Fixpoint chunks {A} (n : nat) (fuel : nat) (l : list A) : list (list A) :=
-  match fuel with
-  | O => []
-  | S fuel' => match l with [] => [] | _ => firstn n l :: chunks n fuel' (skipn n l) end
-  end.
+(* the first [h] consecutive groups of [w] elements: pixels of a byte string, rows of a w x h buffer *)
+Fixpoint rows_of {A} (w h : nat) (l : list A) : list (list A) :=
+  match h with O => [] | S h' => firstn w l :: rows_of w h' (skipn w l) end.
 
 Definition bpp_nat (T : pixtable) (f : cformat) : nat := Z.to_nat (pt_bpp T f).
 
-(* fn decode(bytes): assert_eq!(bytes.len() % BYTES_PER_PIXEL, 0); read len/BPP colours *)
+(* fn decode(bytes): assert_eq!(bytes.len() % BYTES_PER_PIXEL, 0); (0..len / BPP).map(read one colour) *)
 Definition decode_bytes (T : pixtable) (f : cformat) (bs : bytes) : outcome (list comps) :=
   let n := bpp_nat T f in
   if Nat.eqb n 0 then Panic P_DIV0 else
   if negb (Nat.eqb (Nat.modulo (length bs) n) 0) then Panic P_EXPECT else
-  omap (fun ch => dec_px T f (le_value ch)) (chunks n (length bs) bs).
+  omap (fun ch => dec_px T f (le_value ch)) (rows_of n (Nat.div (length bs) n) bs).
 
 Definition encode_bytes (T : pixtable) (f : cformat) (cs : list comps) : outcome bytes :=
   do l <- omap (fun c => do p <- enc_px T f c; Ok (le_bytes (bpp_nat T f) p)) cs;
@@ -232,10 +229,6 @@ Fixpoint px_of_bytes (fuel : nat) (bs : bytes) : list pixel :=
   end.
 Definition bytes_of_px (l : list pixel) : bytes :=
   flat_map (fun p : pixel => let '(a, b, c, d) := p in [a; b; c; d]) l.
-
-(* rows of a w x h buffer *)
-Fixpoint rows_of {A} (w h : nat) (l : list A) : list (list A) :=
-  match h with O => [] | S h' => firstn w l :: rows_of w h' (skipn w l) end.
 
 (* output image of (w + ox) x (h + oy), filled with 0xFF, the content copied to (ox, oy) *)
 Definition pad (ox oy w : nat) (rows : list (list pixel)) : list (list pixel) :=
